@@ -297,7 +297,7 @@ fn execute(atoms: &Atoms, scn: &Scenario, cas: &std::path::Path, prefix: &[usize
                     } else {
                         cas
                     };
-                    let r = std::panic::AssertUnwindSafe(run_session(atoms, spec, cas, pool.clone(), &store2, explore, scn.family == "inject-conc", prefix, budget, obs_ref)).catch_unwind().await;
+                    let r = std::panic::AssertUnwindSafe(run_session(atoms, spec, cas, pool.clone(), &store2, explore, scn.family == "inject-conc", scn.family == "inject-persist", prefix, budget, obs_ref)).catch_unwind().await;
                     if let Err(p) = r {
                         obs_ref.panic = Some(format!("{} @ {}", vcore::util::panic_text(&p), vcore::util::last_panic_loc()));
                         break;
@@ -381,7 +381,7 @@ async fn settle(store: &Store, done_flag: &Arc<Mutex<Option<Result<(), String>>>
 }
 
 #[allow(clippy::too_many_arguments)]
-async fn run_session(atoms: &Atoms, spec: &SessionSpec, cas: &std::path::Path, pool: Arc<ThreadPool>, store: &Store, explore: bool, concurrent_mode: bool, prefix: &[usize], budget: usize, obs: &mut ExecObs) {
+async fn run_session(atoms: &Atoms, spec: &SessionSpec, cas: &std::path::Path, pool: Arc<ThreadPool>, store: &Store, explore: bool, concurrent_mode: bool, persist_mode: bool, prefix: &[usize], budget: usize, obs: &mut ExecObs) {
     let config = make_config(cas, spec.salt);
     let client: Arc<dyn Client + Send + Sync> = Arc::new(store.clone());
     let session = match FileUploadSession::new_with_client(config, pool, None, client, false).await {
@@ -408,6 +408,9 @@ async fn run_session(atoms: &Atoms, spec: &SessionSpec, cas: &std::path::Path, p
         }
     }
     let mut cleaners: Vec<Option<_>> = (0..nfiles).map(|_| None).collect();
+    let persist = persist_mode && explore;
+    let mut dead: Vec<bool> = vec![false; nfiles];
+    let mut stop = false;
     let mut session_opt = Some(session);
     let mut all_ok = true;
     let mut op_idx = 0usize;
@@ -433,14 +436,27 @@ async fn run_session(atoms: &Atoms, spec: &SessionSpec, cas: &std::path::Path, p
                 }
                 if r.is_err() {
                     all_ok = false;
+                    // "persist" driver: a caller that treats the error as that file's, drops the file's cleaner
+                    // and goes on with its other files and with finalize
+                    if let (true, Some(f)) = (persist, inflight[k].file) {
+                        dead[f] = true;
+                        cleaners[f] = None;
+                        queues[f].clear();
+                    } else {
+                        stop = true;
+                    }
                 }
                 inflight.remove(k);
             } else {
                 k += 1;
             }
         }
-        if !all_ok {
+        if !all_ok && (!persist || stop) {
             break; // like every in-repo caller: stop using the session at the first error
+        }
+        // persist mode: skip the remaining operations of abandoned files
+        while !concurrent && op_idx < ops.len() && matches!(&ops[op_idx], DriverOp::Add(i, _) | DriverOp::Finish(i) if dead[*i]) {
+            op_idx += 1;
         }
         // options
         let pending: Vec<(usize, bool)> = store.st.lock().unwrap().pending.iter().map(|(k, v)| (*k, v.1)).collect();
@@ -683,6 +699,12 @@ fn scenarios(tier: Tier) -> Vec<Scenario> {
     let conc = |files: Vec<FileSpec>| Scenario { family: "inject-conc".into(), sessions: vec![SessionSpec::seq(files)] };
     v.push(conc(vec![f(&[0, 1, 2], 0), f(&[3, 4, 5], 0)]));
     v.push(conc(vec![f(&[0, 1], 0), f(&[0, 1], 0)]));
+    // persist mode: after an operation of a file fails the driver abandons that file only and goes on with the
+    // other files and with finalize (the public API does not prevent it); the ordering clause "a shard is handed
+    // to the store only after every xorb its file records reference has been stored" must hold there too
+    let persist = |files: Vec<FileSpec>| Scenario { family: "inject-persist".into(), sessions: vec![SessionSpec::seq(files)] };
+    v.push(persist(vec![f(&[0, 1, 2], 0), f(&[3, 4], 0)]));
+    v.push(persist(vec![f(&[0, 1, 2], 0), f(&[3, 4, 5], 0), f(&[6], 0)]));
     // global dedup: second session on a fresh local shard cache against the same store
     let gd = |s1: Vec<FileSpec>, s2: Vec<FileSpec>| Scenario { family: "inject-gd".into(), sessions: vec![SessionSpec::seq(s1), SessionSpec::seq(s2)] };
     v.push(gd(vec![f(&[0, 1, 2, 3], 0)], vec![f(&[0, 1, 2, 3], 0)]));
@@ -913,7 +935,7 @@ fn main() {
     let capped = all.get("scenarios_capped");
     run.set("worker_processes", json!(njobs));
     run.set("decisions", json!(all.get("decisions")));
-    run.assume("the driver behaves like every in-repo caller: it stops using a session at the first Err; continuing to drive a failed session is outside the contract");
+    run.assume("two drivers: the in-repo caller's (stops using the session at the first Err; the error-surfacing and reconstructibility clauses are judged there) and, for the inject-persist scenarios, one that abandons only the file whose operation failed and goes on to finalize (the shard-after-its-xorbs clause is judged there as well)");
     run.assume("single-threaded runtime: the only nondeterminism is the explorer's (which pending store call completes next, as success or failure, relative to the driver's operations); quiescence between choices = 40 consecutive yields without a harness-visible event, validated by re-running 1 in 16 executions");
     run.assume("intra-operation preemption of two cleaners is not explored at this layer");
     run.all = all;
